@@ -104,37 +104,124 @@ def r3_cleanup_typestate(chk: Check):
     loc = chk.loc(f.module, f.node)
     reg = [n for n, c in g.call_nodes(lambda c: src(c) == "atexit.register(self.cleanup)")]
     chk.require(len(reg) == 1 and g.dominates(reg[0], loop), chk.fkey(f, "cleanup registered"), "the cleanup must be registered with atexit before anything else", loc)
-    # the nested handler remover unregisters the cleanup only when asked to
-    rsh_key = None
-    for k, ff in tree.funcs.items():
-        if ff.module.name == "run" and ff.parent is f and any(src(c) == "atexit.unregister(self.cleanup)" for c in fn_calls(ff.node)):
-            rsh_key = ff
     unreg_in_run = [c for c in fn_calls(f.node) if src(c) == "atexit.unregister(self.cleanup)"]
     chk.require(not unreg_in_run, chk.fkey(f, "no direct unregister"), "TaskRunner.run unregisters the cleanup itself: a job that ends on its own would leave its pid file behind", loc)
-    if rsh_key is not None:
-        gg = CFG(rsh_key.node)
-        params = [a.arg for a in rsh_key.node.args.args]
-        for n, c in gg.call_nodes(lambda c: src(c) == "atexit.unregister(self.cleanup)"):
-            gs = [(src(t.ast), pol) for t, pol in gg.guards(n) if t.kind == "test"]
-            guard = [p for p in params if (p, True) in gs]
-            chk.require(bool(guard), chk.fkey(rsh_key, "unregister only when asked"),
-                        f"`{rsh_key.qual}` always unregisters the exit cleanup (its parameter {params} is not tested): on the success path the process exits with the cleanup "
-                        "neither run nor registered, so a finished job keeps its pid file and holds its locks until the process is gone", chk.loc(rsh_key.module, c))
-            if guard:
-                # every call on a path to process exit passes a false value
-                for cc in fn_calls(f.node):
-                    if dotted(cc.func) == rsh_key.node.name:
-                        val = None
-                        for kw in cc.keywords:
-                            if kw.arg == guard[0]:
-                                val = kw.value
-                        if val is None and cc.args:
-                            val = cc.args[params.index(guard[0])] if len(cc.args) > params.index(guard[0]) else None
-                        ok = isinstance(val, ast.Constant) and val.value is False
-                        chk.require(ok, chk.fkey(f, "cleanup stays registered on success"), f"`{src(cc)}` unregisters the exit cleanup on the success path", chk.loc(f.module, cc))
-    else:
-        chk.ok(chk.fkey(f, "cleanup never unregistered in-process"), loc)
+    # ... nor through a nested helper called on a path to the process exit (the same helper may unregister it in a forked child)
+    nested = _nested_helpers(tree, f)
+    direct = 0
+    for cc in fn_calls(f.node):
+        if isinstance(cc.func, ast.Name) and cc.func.id in nested:
+            direct += 1
+            unreg, _ = _helper_effects(nested, nested[cc.func.id].node, _call_env(nested[cc.func.id].node, cc), {cc.func.id}, may=True)
+            chk.require(not unreg, chk.fkey(f, "cleanup stays registered on success"),
+                        f"`{src(cc)}` unregisters the exit cleanup on a path to the process exit: the process ends with the cleanup neither run nor registered, "
+                        "so a finished job keeps its pid file and holds its locks until the process is gone", chk.loc(f.module, cc))
+    chk.count("direct_calls_of_nested_helpers", direct)
     # failure paths call cleanup explicitly (handle_error) -- checked in R2
+    fork_protection(chk)
+
+
+def _nested_helpers(tree, f):
+    return {ff.node.name: ff for ff in tree.funcs.values() if ff.module is f.module and ff.parent is f and not isinstance(ff.node, ast.Lambda)}
+
+
+def _call_env(callee, call):
+    env = _defaults(callee)
+    ps = [a.arg for a in callee.args.posonlyargs + callee.args.args]
+    for i, a in enumerate(call.args):
+        if i < len(ps):
+            env[ps[i]] = a
+    for k in call.keywords:
+        if k.arg:
+            env[k.arg] = k.value
+    return env
+
+
+def _helper_effects(nested, fn_node, env, seen, depth=0, may=False):
+    """(unregisters the exit cleanup?, signals whose handler is set to something else than handle_error) on the statements of a nested helper that
+    are executed for sure under `env` (parameter -> argument expression): an `if <param>` with a constant argument follows one branch, any
+    other condition contributes nothing"""
+    unreg, restored = False, set()
+
+    def walk(stmts):
+        nonlocal unreg
+        for st in stmts:
+            if isinstance(st, ast.If):
+                t = st.test
+                neg = isinstance(t, ast.UnaryOp) and isinstance(t.op, ast.Not)
+                tn = t.operand if neg else t
+                if isinstance(tn, ast.Constant):
+                    walk(st.body if (bool(tn.value) ^ neg) else st.orelse)
+                elif isinstance(tn, ast.Name) and tn.id in env and isinstance(env[tn.id], ast.Constant):
+                    walk(st.body if (bool(env[tn.id].value) ^ neg) else st.orelse)
+                elif may:
+                    walk(st.body)
+                    walk(st.orelse)
+                continue
+            if isinstance(st, (ast.With, ast.Try)):
+                walk(st.body)
+                if may and isinstance(st, ast.Try):
+                    for h in st.handlers:
+                        walk(h.body)
+                    walk(st.orelse)
+                    walk(st.finalbody)
+                continue
+            if isinstance(st, (ast.For, ast.While)) and may:
+                walk(st.body)
+                continue
+            if isinstance(st, (ast.For, ast.While, ast.FunctionDef, ast.AsyncFunctionDef)):
+                continue
+            for c in [x for x in ast.walk(st) if isinstance(x, ast.Call)]:
+                if src(c) == "atexit.unregister(self.cleanup)":
+                    unreg = True
+                if dotted(c.func) == "signal.signal" and len(c.args) == 2 and src(c.args[1]) != "self.handle_error":
+                    restored.add(src(c.args[0]))
+                if isinstance(c.func, ast.Name) and c.func.id in nested and c.func.id not in seen and depth < 3:
+                    u2, r2 = _helper_effects(nested, nested[c.func.id].node, _call_env(nested[c.func.id].node, c), seen | {c.func.id}, depth + 1, may)
+                    unreg = unreg or u2
+                    restored.update(r2)
+
+    walk(fn_node.body)
+    return unreg, restored
+
+
+def fork_protection(chk: Check):
+    """A process forked by the task body inherits the runner's signal handlers and exit hook: its SIGTERM would write the failure marker and its
+    exit would delete the pid file and release the locks of the job that is still running.  The after-fork hook must undo both in the child."""
+    tree = chk.tree
+    f = tree.func("run", "TaskRunner.run")
+    loc = chk.loc(f.module, f.node)
+    hooks = [c for c in fn_calls(f.node) if dotted(c.func) == "os.register_at_fork"]
+    chk.require(len(hooks) >= 1, chk.fkey(f, "after-fork hook registered"), "TaskRunner.run registers no after-fork hook: forked children keep the runner's signal handlers and exit cleanup", loc)
+    nested = _nested_helpers(tree, f)
+    unreg, restored = False, set()
+    for h in hooks:
+        tgt = next((k.value for k in h.keywords if k.arg == "after_in_child"), None)
+        if isinstance(tgt, ast.Name) and tgt.id in nested:
+            u, r = _helper_effects(nested, nested[tgt.id].node, _defaults(nested[tgt.id].node), {tgt.id})
+        elif isinstance(tgt, ast.Lambda):
+            u, r = _helper_effects(nested, ast.FunctionDef(name="<lambda>", args=tgt.args, body=[ast.Expr(tgt.body)], decorator_list=[]), {}, set())
+        else:
+            continue
+        unreg = unreg or u
+        restored |= r
+    if hooks:
+        chk.require(unreg, chk.fkey(f, "forked child drops the exit cleanup"), "the after-fork hook does not unregister the exit cleanup in the child: a forked helper that exits removes the pid file "
+                    "and releases the locks of the job that is still running", loc)
+        chk.require({"signal.SIGTERM", "signal.SIGINT"} <= restored, chk.fkey(f, "forked child drops the signal handlers"),
+                    f"the after-fork hook restores {sorted(restored)} only: a forked helper that is terminated runs handle_error -- failure marker written and pid file removed while the job itself runs on", loc)
+
+
+def _defaults(fn_node):
+    a = fn_node.args
+    pos = a.posonlyargs + a.args
+    env = {}
+    for prm, d in zip(pos[len(pos) - len(a.defaults):], a.defaults):
+        env[prm.arg] = d
+    for prm, d in zip(a.kwonlyargs, a.kw_defaults):
+        if d is not None:
+            env[prm.arg] = d
+    return env
 
 
 def r4_lock_type(chk: Check):
